@@ -1121,7 +1121,10 @@ impl DB {
         }
 
         let mut was_memtable_reused = false;
-        if self.options.reuse_log_files() && is_last_wal && num_compactions == 0 {
+        // A WAL with a torn or corrupted tail cannot be appended to because later readers would
+        // never reach the records written after the damaged region
+        let is_wal_intact = wal_reader.was_read_cleanly_to_end()?;
+        if self.options.reuse_log_files() && is_last_wal && num_compactions == 0 && is_wal_intact {
             log::info!("Reusing WAL file: {wal_path:?}.", wal_path = &wal_path);
             drop(wal_reader);
             if let Ok(wal_writer) =
